@@ -53,6 +53,24 @@ def run_dir(binary, files, flags, ver, procs, timeout=300, env_extra=None):
         shutil.rmtree(d, ignore_errors=True)
 
 
+def big_sources(sources, sizes=(80000, 140000, 300000)):
+    """sources far above any plausible size threshold of the tool (read buffers, pools, pipes), joined from clean programs"""
+    from . import progs
+    clean = [s for s in sources if s.startswith("<?php ") and "__halt_compiler" not in s.lower() and "namespace" not in s.lower() and "declare" not in s.lower()
+             and "<<<" not in s]          # (an empty heredoc under >= 7.3 is known finding D6: the scanner may panic)
+    out = []
+    for size in sizes:
+        acc, n = [], 0
+        k = 0
+        while n < size and clean:
+            acc.append(clean[k % len(clean)])
+            n += len(acc[-1])
+            k += 1
+        if acc:
+            out.append(progs.join_programs(acc))
+    return out
+
+
 PATHLINE = re.compile(r"^==> \[(\d+)\] (.*)$")
 
 
